@@ -871,6 +871,49 @@ func C03(c *core.Ctx) {
 					}
 				}
 			}
+			// the same search by bisection: sort.SearchInts(acc, x) is the smallest i with
+			// acc[i] >= x. In Range(start, end) the segment of the first byte is the LAST i
+			// with acc[i] <= start, i.e. SearchInts(acc, start+1)-1, and the segment of the
+			// last byte the last i with acc[i] < end, i.e. SearchInts(acc, end)-1. Searching
+			// for `start` itself puts a start that lies on a segment boundary one segment low
+			// (a leading empty buffer); for `end+1` puts such an end one segment high.
+			if rg := p.Func("std/encoding", "WireReader", "Range"); rg != nil && len(rg.Params) == 3 {
+				core.Instrs(rg, func(in ssa.Instruction) {
+					cl, ok := in.(*ssa.Call)
+					if !ok {
+						return
+					}
+					cal := cl.Call.StaticCallee()
+					if cal == nil || cal.Pkg == nil || cal.Pkg.Pkg.Path() != "sort" || cal.Name() != "SearchInts" || len(cl.Call.Args) != 2 {
+						return
+					}
+					if _, okF := core.FieldOf(cl.Call.Args[0], "accSz"); !okF {
+						return
+					}
+					nSearch++
+					arg := core.StripConv(cl.Call.Args[1])
+					adj := int64(0)
+					if b, isB := arg.(*ssa.BinOp); isB && (b.Op == token.ADD || b.Op == token.SUB) {
+						if k, isK := core.ConstInt(b.Y); isK {
+							adj = k
+							if b.Op == token.SUB {
+								adj = -k
+							}
+							arg = core.StripConv(b.X)
+						}
+					}
+					which, want := "", int64(0)
+					switch arg {
+					case ssa.Value(rg.Params[1]):
+						which, want = "start", 1
+					case ssa.Value(rg.Params[2]):
+						which, want = "end", 0
+					default:
+						return
+					}
+					c.Decide(adj == want, "R3.15", fmt.Sprintf("segment-search-half-open:%s#%d", core.FuncName(rg), nSearch), c.Pos(cl), "the bisection looks for "+which+fmt.Sprintf("%+d", want)+" (half-open on the right side)", fmt.Sprintf("WireReader.Range finds the segment of its %s by sort.SearchInts(accSz, %s%+d) — the smallest index whose prefix sum is not below that — where %s%+d is needed: an offset exactly on a segment boundary is put into the neighbouring segment, the range gets an empty buffer in front (or behind) and a field read through it fails or is cut — a packet split into segments at such an offset decodes differently from the contiguous bytes", which, which, adj, which, want))
+				})
+			}
 			c.Floor("R3.15", "segment searches by prefix sums in std/encoding", nSearch, 2)
 		}
 		// ---- R3.16 a length or type written as a single header octet is below 253: outside
